@@ -492,97 +492,10 @@ theorem tallyOne_completed (e e' : EntState) (now id : Nat) (h : e.tallyOne now 
 /-- a leaf message signed by an address somebody can sign for never touches the enterprise escrow's
 balances (and changes no supply) -/
 theorem leaf_keeps_Ment (wall : Nat) (s s' : State) (m : Msg) (r : Resp) (hl : m.isLeaf = true) (hsig : m.SignedOK)
-    (h : execMsg wall s m = .ok (s', r)) : KeepsAt Ment s.bank s'.bank := by
-  obtain ⟨sa, hsa, hmay⟩ := hsig
-  have hne := maySign_ne_Ment sa hmay
-  have hM1 : Ment ≠ Mstr := by decide
-  have hM2 : Ment ≠ Mfee := by decide
-  cases m with
-  | strCreate rr sn amt denom rate =>
-    simp only [execMsg, bind_eq_ok, pure_eq_ok, Prod.mk.injEq] at h
-    obtain ⟨x, hx, rfl, _⟩ := h
-    simp only [Msg.signer, signerTok_strCreate, Option.bind_some] at hsa
-    have hx' := hx
-    simp only [createStream, bind_eq_ok, require_eq_ok, decodeM_eq_ok] at hx
-    obtain ⟨sa', hsa', ra, _, _, _, _, _, _, _, _, _, _, _, _, _, hx⟩ := hx
-    rw [hsa] at hsa'; cases hsa'
-    exact addDeposit_keeps Ment isBlocked hM1 hM2 isBlocked_Ment _ x s.time ra sa denom amt (fun e => hne e.symm) hx
-  | strClaim rr sn =>
-    simp only [execMsg, bind_eq_ok, pure_eq_ok, Prod.mk.injEq] at h
-    obtain ⟨x, hx, rfl, _⟩ := h
-    simp only [claimStream, bind_eq_ok, require_eq_ok, decodeM_eq_ok] at hx
-    obtain ⟨sa', _, ra, _, _, _, hx⟩ := hx
-    exact claimFromStream_keeps Ment isBlocked hM1 hM2 isBlocked_Ment (toSB s) x.1 s.time ra sa' x.2 (by cases x; exact hx)
-  | strTopup rr sn amt denom =>
-    simp only [execMsg, bind_eq_ok, pure_eq_ok, Prod.mk.injEq] at h
-    obtain ⟨x, hx, rfl, _⟩ := h
-    simp only [Msg.signer, signerTok_strTopup, Option.bind_some] at hsa
-    simp only [topUpDeposit, bind_eq_ok, pure_eq_ok, require_eq_ok, decodeM_eq_ok] at hx
-    obtain ⟨sa', hsa', ra, _, _, _, st, _, _, _, x', hx', hxe⟩ := hx
-    rw [hsa] at hsa'; cases hsa'
-    have : x.1 = x' := by cases x; simp only [Prod.mk.injEq] at hxe; exact hxe.1.symm
-    rw [show (liftSB s x.1).bank = x.1.bank from rfl, this]
-    exact addDeposit_keeps Ment isBlocked hM1 hM2 isBlocked_Ment (toSB s) x' s.time ra sa denom amt (fun e => hne e.symm) hx'
-  | strRate rr sn rate =>
-    simp only [execMsg, bind_eq_ok, pure_eq_ok, Prod.mk.injEq] at h
-    obtain ⟨x, hx, rfl, _⟩ := h
-    simp only [updateFlowRate, bind_eq_ok, require_eq_ok, decodeM_eq_ok] at hx
-    obtain ⟨sa', _, ra, _, _, _, _, _, hx⟩ := hx
-    exact setNewFlowRate_keeps Ment isBlocked hM1 hM2 isBlocked_Ment (toSB s) x s.time ra sa' rate hx
-  | strCancel rr sn =>
-    simp only [execMsg, bind_eq_ok, pure_eq_ok, Prod.mk.injEq] at h
-    obtain ⟨x, hx, rfl, _⟩ := h
-    simp only [cancelStreamMsg, bind_eq_ok, require_eq_ok, decodeM_eq_ok] at hx
-    obtain ⟨sa', _, ra, _, _, _, _, _, hx⟩ := hx
-    exact cancelStream_keeps Ment isBlocked hM1 hM2 isBlocked_Ment (toSB s) x s.time ra sa' hx
-  | strParams auth fee =>
-    simp only [execMsg, bind_eq_ok, pure_eq_ok, Prod.mk.injEq] at h
-    obtain ⟨_, _, _, _, rfl, _⟩ := h
-    exact .refl _ _
-  | bankSend src dst coins =>
-    simp only [execMsg, bind_eq_ok, pure_eq_ok, Prod.mk.injEq, require_eq_ok, decodeM_eq_ok] at h
-    obtain ⟨a, ha, b, _, _, hb, bank, hbank, rfl, _⟩ := h
-    simp only [Msg.signer, signerTok_bankSend, Option.bind_some] at hsa
-    rw [ha] at hsa; cases hsa
-    have hbne : Ment ≠ b := by intro e; subst e; simp [isBlocked_Ment] at hb
-    exact sendCoins_keeps Ment sa b _ _ _ _ (fun e => hne e.symm) hbne hbank
-  | authzGrant g e kind =>
-    simp only [execMsg, bind_eq_ok, pure_eq_ok, Prod.mk.injEq] at h
-    obtain ⟨_, _, ea, _, rfl, _⟩ := h
-    exact ensureAccount_keeps Ment ea s.bank
-  | authzRevoke g e kind =>
-    simp only [execMsg, bind_eq_ok, pure_eq_ok, Prod.mk.injEq] at h
-    obtain ⟨_, _, _, _, _, _, rfl, _⟩ := h
-    exact .refl _ _
-  | authzExec g msgs => simp [Msg.isLeaf] at hl
-  | feegrantGrant g e =>
-    simp only [execMsg, bind_eq_ok, pure_eq_ok, Prod.mk.injEq] at h
-    obtain ⟨_, _, ea, _, _, _, rfl, _⟩ := h
-    exact ensureAccount_keeps Ment ea s.bank
-  | entRaise p amt denom =>
-    simp only [execMsg, bind_eq_ok, pure_eq_ok, Prod.mk.injEq] at h
-    obtain ⟨_, _, rfl, _⟩ := h; exact .refl _ _
-  | entDecide id dec sg =>
-    simp only [execMsg, bind_eq_ok, pure_eq_ok, Prod.mk.injEq] at h
-    obtain ⟨_, _, rfl, _⟩ := h; exact .refl _ _
-  | entWl action a sg =>
-    simp only [execMsg, bind_eq_ok, pure_eq_ok, Prod.mk.injEq] at h
-    obtain ⟨_, _, rfl, _⟩ := h; exact .refl _ _
-  | entParams auth p =>
-    simp only [execMsg, bind_eq_ok, pure_eq_ok, Prod.mk.injEq] at h
-    obtain ⟨_, _, _, _, rfl, _⟩ := h; exact .refl _ _
-  | regReg k moniker name genesis type o =>
-    simp only [execMsg, bind_eq_ok, pure_eq_ok, Prod.mk.injEq] at h
-    obtain ⟨_, _, rfl, _⟩ := h; cases k <;> exact .refl _ _
-  | regRec k id key rc o =>
-    simp only [execMsg, bind_eq_ok, pure_eq_ok, Prod.mk.injEq] at h
-    obtain ⟨_, _, rfl, _⟩ := h; cases k <;> exact .refl _ _
-  | regBuy k id n o =>
-    simp only [execMsg, bind_eq_ok, pure_eq_ok, Prod.mk.injEq] at h
-    obtain ⟨_, _, rfl, _⟩ := h; cases k <;> exact .refl _ _
-  | regParams k auth p =>
-    simp only [execMsg, bind_eq_ok, pure_eq_ok, Prod.mk.injEq] at h
-    obtain ⟨_, _, _, _, rfl, _⟩ := h; cases k <;> exact .refl _ _
+    (h : execMsg wall s m = .ok (s', r)) : KeepsAt Ment s.bank s'.bank :=
+  leaf_bank_rel (KeepsAt Ment) (fun x => Ment ≠ x) s (keepsAt_rel Ment _) (by decide) (by decide)
+    (fun x hx => by intro e; subst e; simp [isBlocked_Ment] at hx)
+    (fun x hx e => maySign_ne_Ment x hx e.symm) wall s' m r hl hsig h
 
 theorem leaf_ent (wall : Nat) (s s' : State) (m : Msg) (r : Resp) (hl : m.isLeaf = true)
     (h : execMsg wall s m = .ok (s', r)) : s'.ent = s.ent ∨ EntOp s.nowSecU s.ent s'.ent := by
